@@ -71,8 +71,17 @@ def session_example(prog, ops, nids, real):
     for ent in real.split():
         i, _, c = ent.partition(":")
         seen[int(i)].append("SInit %d" % kinds.index(c[1]) if c[0] == "I" else "SEv %s 0" % c[1:])
-    want = coq_cases.coq_list(coq_cases.coq_list(seen[i]) for i in range(nids))
-    return "(%s let lg := session v%d %s in map (fun i => sees i lg) (seq 0 %d)) = %s" % (" ".join(lets), len(defs) - 1, opt, nids, want), seen
+    # an emitter occurring once (or not at all) must see exactly the sequence it would see alone; for one that
+    # occurs several times "alone" fixes no order between its own occurrences: only the number of calls is compared
+    ninit = sum(1 for o in ops if o[0] == "I")
+
+    def mult(i):
+        k = sum(1 for c in seen[i] if c.startswith("SInit"))
+        return k // ninit if ninit and k % ninit == 0 else 1
+    want = coq_cases.coq_list("(%s, 0)" % coq_cases.coq_list(seen[i]) if mult(i) <= 1 else "([], %d)" % len(seen[i]) for i in range(nids))
+    return ("(%s let v := v%d in let lg := session v %s in map (fun i => let s := sees i lg in "
+            "if Nat.leb (count_occ Nat.eq_dec (deliver v) i) 1 then (s, 0) else ([], length s)) (seq 0 %d)) = %s"
+            % (" ".join(lets), len(defs) - 1, opt, nids, want)), seen
 
 
 def session_tie(chk, r):
@@ -116,7 +125,7 @@ def session_tie(chk, r):
             break
     chk.cov["correspondence"]["emitter_sessions"] = {
         "kind": "real cff.EmitterStack driven through sessions (TaskInit/FlowInit/ParallelInit/SchedulerInit creating children, Done/EmitScheduler on earlier children, recorders numbering their own children) "
-                "vs EmitterSessionModel.session evaluated inside Coq (vm_compute), compared per user emitter (order across emitters is not compared)",
+                "vs EmitterSessionModel.session evaluated inside Coq (vm_compute), compared per user emitter: the exact sequence for an emitter occurring at most once, the number of calls for one occurring several times (order across emitters and between the occurrences of one emitter is not compared)",
         "sessions": len(cases), "ops_per_session": {str(k): nops[k] for k in sorted(nops)}}
 
 
